@@ -144,6 +144,21 @@ def run(tier, seed):
     # every consumer must follow (prime counts: no chunk size divides them)
     wide_proj = ec.wide_fanin_leg(PID, bd, wd, verdict, "eng_seq", fan=(131, 257) if quick else (131, 257, 769, 1031),
                                   proj=True, tag="wide_projections")
+    # wide UNORDERED groups whose members are queries: a member switches to another firewall without changing its
+    # value while the other members are dirty but unchanged (the checks of one chunk run one after another, the
+    # chunks concurrently): the reader of the group must take over the new firewall (tools/gen_unord.py tfc)
+    tcases = os.path.join(wd, "unord_tfc.cases")
+    vp.run(["python3", os.path.join(vp.ROOT, "tools", "gen_unord.py"), "tfc", tcases, str(seed)])
+    ttr = os.path.join(wd, "unord_tfc.ndjson")
+    vp.run_subject([os.path.join(bd, "eng_seq"), "--mode", "replay", "--in", tcases, "--out", ttr], timeout=3000)
+    tres, tr_ = ec.validate_lite(ttr, ttr + ".result.json")
+    states += tr_["distinct"]; trans += tr_["generated"]
+    for v in tres["viol"][:3]:
+        verdict.violation(f"{v['kind']} node={v['n']} got={v['got']} want={v['want']} (unordered group taking over a firewall; "
+                          f"{len(tres['viol'])} in total)",
+                          {"property": PID, "violation": v, "origin": "unordered group / firewall take-over family", "lite": True,
+                           "case_file_generator": f"tools/gen_unord.py tfc OUT {seed}"})
+    unord_tfc = {"events_validated": tres["events"], "checked": tres["stats"], "violations": len(tres["viol"])}
     # fan-in far above the 1024-element threshold of the callee -> callers set, in memory and over
     # DbBacked<MemKv> (the set is rebuilt from the store through the spill path): judged by the light
     # trace spec (EngineObsLite: user values, double execution, overlap), linear in the trace length
